@@ -1237,9 +1237,44 @@ class Engine(object):
             if isinstance(a, VRef) and readonly:
                 continue
             if isinstance(a, VRef):
+                named = self.reachable_from_names(a.rid, st)
                 self.havoc_obj(a, st, "arg", kind_hint="opaque")
-                st.notes.append("imprecise: mutable object passed to abstracted call `%s` havocked" % txt[:60])
+                if named:
+                    # (a temporary -- e.g. a list display built for this very call -- is nobody's state: no imprecision)
+                    st.notes.append("imprecise: mutable object passed to abstracted call `%s` havocked" % txt[:60])
         return VOpaque(note=txt[:60])
+
+    def reachable_from_names(self, rid, st, depth=4):
+        """Is heap object `rid` bound to a variable, or contained in an object that is?"""
+        seen = set()
+
+        def holds(v, d):
+            if isinstance(v, VRef):
+                if v.rid == rid:
+                    return True
+                if d <= 0 or v.rid in seen:
+                    return False
+                seen.add(v.rid)
+                o = st.heap.get(v.rid)
+                if isinstance(o, RecordObj):
+                    return any(holds(x, d - 1) for _p, x in o.fields.values())
+                if isinstance(o, MapObj):
+                    return any(holds(x, d - 1) for _k, x in list(o.entries) + list(o.fetched))
+                return False
+            if isinstance(v, VTuple):
+                return any(holds(x, d - 1) for x in v.items)
+            if isinstance(v, VNode):
+                return any(holds(x, d - 1) for x in v.fields.values())
+            return False
+
+        for frame in st.frames:
+            for v in frame.values():
+                if holds(v, depth):
+                    return True
+        for v in (st.ghost.get("__paths__") or {}).values():
+            if holds(v, depth):
+                return True
+        return False
 
     def apply(self, fv, args, kwargs, st, e=None):
         """Apply a callable value -> [(state, value)]"""
@@ -1473,6 +1508,28 @@ class Engine(object):
                         s2.assume(c)
                         if self.feasible(s2):
                             outs.append((s2, val))
+                    return outs
+                if m == "setdefault" and len(args) == 2 and isinstance(args[0], VStr) and z3.is_string_value(args[0].z):
+                    k = args[0].z.as_string()
+                    if k not in o.fields:
+                        n = RecordObj(o.fields)
+                        n.fields[k] = (z3.BoolVal(True), args[1])
+                        st.heap[recv.rid] = n
+                        return [(st, args[1])]
+                    p, v = o.fields[k]
+                    outs = []
+                    s_has = st.fork()
+                    s_has.assume(p)
+                    if self.feasible(s_has):
+                        outs.append((s_has, v))
+                    if not z3.is_true(p):
+                        s_no = st.fork()
+                        s_no.assume(z3.Not(p))
+                        if self.feasible(s_no):
+                            n = RecordObj(o.fields)
+                            n.fields[k] = (z3.BoolVal(True), args[1])
+                            s_no.heap[recv.rid] = n
+                            outs.append((s_no, args[1]))
                     return outs
                 if m == "update" and len(args) == 1 and isinstance(args[0], VRef) and isinstance(st.heap[args[0].rid], RecordObj) and not kwargs:
                     src = st.heap[args[0].rid]
